@@ -1283,7 +1283,7 @@ static void run_c12(const Case &c, Src &rest, XorShift &x) {
       d = do_load(cc, im0, true);
       if (!d) return false;
       cur->labels.insert("c12_loadopt" + std::to_string(cc.p.loadopt));
-      img = im0;   // a loaded object is not saved again here (re-saving is C08's business, F10/F11)
+      img = im0;   // a loaded object is not saved again here (re-saving is C08's business)
     }
     Obj o{d, cc.p.kind, cc.S.size()};
     for (auto &q : q2) ans.push_back(answer(o, q));
